@@ -102,6 +102,9 @@ func (r *Recorder) Class(name string, n int) {
 
 // Max keeps the maximum of a named measurement (e.g. worst deviation seen).
 func (r *Recorder) Max(name string, v float64) {
+	if v != v || v > 1e300 { // NaN / +Inf are not representable in JSON
+		v = 1e300
+	}
 	r.mu.Lock()
 	if old, ok := r.notes[name]; !ok || v > old {
 		r.notes[name] = v
